@@ -231,6 +231,25 @@ def run(ctx):
         terms.append(term)
         meta.append(info)
 
+    # the analytic float theorems (Props/C17F.v: Flocq + Interval) are built and their assumptions
+    # recorded on every run; they stay outside the coqchk pass (Interval's closure takes > 25 min there)
+    import re
+    with C.Lock():
+        rc_f, out_f = C.make(['Props/C17F.vo'], timeout=900)
+    thms_f = re.findall(r'^Theorem\s+(\w+)', (C.COQ / 'Props' / 'C17F.v').read_text(), flags=re.M)
+    ax_f = []
+    if rc_f == 0:
+        (C.BUILD / 'props').mkdir(parents=True, exist_ok=True)
+        rc_f, out_f = C.sh(['coqc', '-Q', '.', 'PyIpmi', '-w', '-all', '-o', str(C.BUILD / 'props' / 'C17F.vo'),
+                            'Props/C17F.v'], cwd=C.COQ, timeout=600)
+        for blk in out_f.split('Axioms:')[1:]:
+            ax_f += [m.group(1) for m in re.finditer(r'^(\S+)(?= :|$)', blk, flags=re.M)]
+    res.extra['float_theorems'] = {
+        'file': 'coq/Props/C17F.v', 'theorems': thms_f, 'checked_by': 'coqc on every run (make Props/C17F.vo); not coqchk',
+        'discharged': len(thms_f) if rc_f == 0 else 0, 'axioms': sorted(set(a for a in ax_f if a and a != 'Closed'))}
+    if rc_f != 0:
+        res.corr_errors.append(('Props/C17F.v', out_f[-3000:]))
+
     budget = [6]
 
     def fail(key, what, oracle, inp):
